@@ -86,14 +86,7 @@ func checkC03(c *Ctx) {
 			r.Ok("C03.nonce-writer", fname(f), p.Pos(f.Pos()), "role genesis import")
 			continue
 		}
-		callsProcess := false
-		ana.Calls(f, func(site ssa.CallInstruction, d ana.CalleeDesc) {
-			for _, callee := range p.Callees(site) {
-				if c.isProcessFn(callee, "mhub2") {
-					callsProcess = true
-				}
-			}
-		})
+		callsProcess := len(c.procSites(f, "mhub2")) > 0
 		if !callsProcess {
 			r.Bad("C03.nonce-writer", fname(f), c.pos(ws[f][0].At), "writes the last observed event nonce but is neither the tally-apply function nor InitGenesis")
 			continue
@@ -149,14 +142,7 @@ func checkC03(c *Ctx) {
 	// ---- C03.accepted-first ---------------------------------------------------
 	r.Min("C03.accepted-first", 2)
 	for _, af := range applyFns {
-		var procSites []ssa.Instruction
-		ana.Calls(af, func(site ssa.CallInstruction, d ana.CalleeDesc) {
-			for _, callee := range p.Callees(site) {
-				if c.isProcessFn(callee, "mhub2") {
-					procSites = append(procSites, site.(ssa.Instruction))
-				}
-			}
-		})
+		procSites := c.procSites(af, "mhub2")
 		// stores of true into <record>.Accepted, nonce set calls, record writes
 		var accStores, nonceSets, recWrites []ssa.Instruction
 		ana.Instrs(af, func(in ssa.Instruction) {
